@@ -36,12 +36,20 @@ def splitDash : List Char → List Char → List (List Char)
   | [], cur => [cur.reverse]
   | c :: cs, cur => if c = '-' then cur.reverse :: splitDash cs [] else splitDash cs (c :: cur)
 
+def isLeapYear (y : Nat) : Bool := (y % 4 = 0 && y % 100 ≠ 0) || y % 400 = 0
+
+/-- number of days of month `m` (1–12) in year `y` -/
+def daysInMonth (y m : Nat) : Nat :=
+  if m = 4 || m = 6 || m = 9 || m = 11 then 30
+  else if m = 2 then (if isLeapYear y then 29 else 28)
+  else 31
+
 /-- `ParsedDate::parse(s).is_ok()` -/
 def dateOk (s : List Char) : Bool :=
   match splitDash s [] with
   | [y, m, d] =>
     match parseUnsigned 65535 y, parseUnsigned 255 m, parseUnsigned 255 d with
-    | some _, some mo, some da => 1 ≤ mo && mo ≤ 12 && 1 ≤ da && da ≤ 31
+    | some yr, some mo, some da => 1 ≤ mo && mo ≤ 12 && 1 ≤ da && da ≤ daysInMonth yr mo
     | _, _, _ => false
   | _ => false
 
